@@ -99,7 +99,12 @@ func ParseDecimal(in string) (*Decimal, error) {
 		ipart := in[:d]
 		fpart := in[d+1:]
 
-		exponent -= int32(len(fpart))
+		// In 64 bits: the digits after the point may take the exponent below the int32 range.
+		scaled := int64(exponent) - int64(len(fpart))
+		if scaled < math.MinInt32 {
+			return nil, &ParseError{in, "exponent out of range"}
+		}
+		exponent = int32(scaled)
 		in = ipart + fpart
 	}
 
